@@ -19,7 +19,7 @@ META = dict(
     explanation="O-A: arcs given by unit vectors on a circle (consecutive steps turn one way by < 90 deg), tangent oracle in closed "
                 "form; O-B: catalogue tissues with one symbolic unit tangent per (interface, junction).",
     bounds=dict(points_per_interface="2..5 quick, 2..9 thorough", circle="centre 0 radius 1 (normalised) and free centre/radius for n=3",
-                tissues="T3, T4, K3, K4 (+R7 thorough), sub-tissues K3-n0, K3-hole, K4-n0, T3-c0, T4-c0, single", ignore_four="on/off"),
+                tissues="T3, T4, K3 (+K4, K4-n0 thorough), sub-tissues K3-n0, K3-hole, K4-n0, T3-c0, T4-c0, single", ignore_four="on/off"),
     outside=[">= 3 exactly collinear points (MINPACK iteration behaviour)", "topologies beyond the catalogue", "floating-point rounding"],
     assumptions=["scipy.optimize.leastsq / circle_fit.taubinSVD return the circumcentre of concyclic points (stub; the repo's objective is checked to vanish there)",
                  "two-point interfaces: leastsq returns its start value (zero residual there)",
@@ -222,7 +222,7 @@ def jobs(tier):
             js.append(Job(f"tangent-free-n3-{'ccw' if ccw else 'cw'}", "c02:tangent", dict(n=3, ccw=ccw, end="first", fit="dlite", free=True), budget_s=900, weight=5))
     topos = ["T3", "T4", "K3", "K3-n0", "K3-hole", "T3-c0", "T4-c0", "single"]
     if tier == "thorough":
-        topos += ["K4", "K4-n0", "R7"]
+        topos += ["K4", "K4-n0"]       # R7 (12 columns, 6 junctions): exploration exceeds the budget, outside
     for t in topos:
         for ig in (None, False, True):
             if ig is False and tier == "quick":
